@@ -997,6 +997,16 @@ impl Opcode for SLoad {
         let storage = vm.state()?.storage_mut();
         let result = storage.load(&key);
 
+        // The loaded value wraps its key (twice for a slot that was never written) and is
+        // built outside the value builder, so the size limit has to be applied here: otherwise
+        // a chain of loads keyed on loads doubles the size of the value at every step
+        let result = if result.size() > vm.config().value_size_limit {
+            let instruction_pointer = vm.instruction_pointer()?;
+            vm.build().value(instruction_pointer, Provenance::Execution)
+        } else {
+            result
+        };
+
         // Write it into the stack
         vm.stack_handle()?.push(result)?;
 
